@@ -13,6 +13,7 @@ import (
 	"sort"
 	"strconv"
 	"strings"
+	"syscall"
 
 	"golang.org/x/crypto/openpgp"
 	"pault.ag/go/debian/changelog"
@@ -586,6 +587,29 @@ func apiCase(vec J) (rec J) {
 		rec["equal"] = v.I == 0 && v.U == 0 && v.Name == "n"
 	case "stageset-without-stages":
 		rec["equal"] = (dependency.StageSet{}).String() == "" && (dependency.StageSet{Stages: []dependency.Stage{}}).String() == ""
+	case "parsefile-named-pipe":
+		// a path whose size is not its content's length: a named pipe fed by a writer
+		dir, err := os.MkdirTemp("", "verif-fifo-")
+		if err != nil {
+			die("mkdtemp: %v", err)
+		}
+		defer os.RemoveAll(dir)
+		fifo := filepath.Join(dir, "changelog")
+		if err := syscall.Mkfifo(fifo, 0600); err != nil {
+			rec["err"], rec["equal"] = false, true // no named pipes here: nothing to observe
+			break
+		}
+		text := "hello (2.10-1) unstable; urgency=low\n\n  * Initial release.\n\n -- A B <a@b.org>  Mon, 02 Jan 2006 15:04:05 -0700\n\nhello (2.9-1) unstable; urgency=low\n\n  * Older.\n\n -- A B <a@b.org>  Sun, 01 Jan 2006 15:04:05 +0000\n"
+		go func() {
+			if f, err := os.OpenFile(fifo, os.O_WRONLY, 0); err == nil {
+				io.WriteString(f, text)
+				f.Close()
+			}
+		}()
+		es, err := changelog.ParseFile(fifo)
+		want, _ := changelog.Parse(strings.NewReader(text))
+		rec["err"] = err != nil
+		rec["equal"] = err == nil && len(es) == 2 && fmt.Sprint(es) == fmt.Sprint(want)
 	case "gz-compressor-roundtrip":
 		c, err := hashio.GetCompressor("gz")
 		if err != nil {
